@@ -117,7 +117,11 @@ fn shape_case(ctx: &mut Ctx, rng: &mut Rng, i: u64) {
     let path_text = ents.join(":");
     // argv / env sizes
     let nargs = match rng.below(5) { 0 => rng.range(100, 400), _ => rng.range(0, 6) } as usize;
-    let mut argv: Vec<OsString> = vec![if use_path { OsString::from(&name) } else { exe.clone().into_os_string() }];
+    // the program may also be named apart from argv[0] (PopenConfig::executable): argv[0] is then anything, shorter or longer
+    let use_executable = rng.chance(300);
+    let prog: OsString = if use_path { OsString::from(&name) } else { exe.clone().into_os_string() };
+    let argv0: OsString = if use_executable { OsString::from("z".repeat(match rng.below(3) { 0 => 0, 1 => 1, _ => rng.range(2, 300) } as usize)) } else { prog.clone() };
+    let mut argv: Vec<OsString> = vec![argv0];
     argv.push("exit".into());
     argv.push("0".into());
     for _ in 0..nargs {
@@ -141,12 +145,18 @@ fn shape_case(ctx: &mut Ctx, rng: &mut Rng, i: u64) {
         cwd: cwd.as_ref().map(|p| p.clone().into_os_string()),
         env,
         setpgid: rng.chance(200),
+        executable: if use_executable { Some(prog.clone()) } else { None },
         ..Default::default()
     };
+    let config = if rng.chance(200) { config.try_clone().expect("try_clone") } else { config };
     // optionally fail a child-side step so that the error-report path is exercised
     let fail_step = if rng.chance(300) { Some(*rng.pick(&[k::CHDIR, k::DUP2, k::SETPGID, k::EXECVE])) } else { None };
+    // an exec attempt can fail for many reasons, some of them transient (text file busy, out of memory): every attempt
+    // fails that way, or only the first one does - whatever the library then does, it does without the allocator
+    let fail_errno = if fail_step == Some(k::EXECVE) { *rng.pick(&[libc::EACCES, libc::ETXTBSY, libc::ENOEXEC, libc::ENOMEM, libc::EAGAIN, libc::ENOENT, libc::EIO]) } else { libc::EACCES };
+    let fail_nth = if fail_step == Some(k::EXECVE) && rng.chance(500) { 0 } else { 1 };
     if let Some(kind) = fail_step {
-        plan::add(Rule { kind, scope: plan::SCOPE_CHILD, nth: if kind == k::EXECVE { 0 } else { 1 }, fd: -1, act: plan::ACT_FAIL, val: libc::EACCES as i64, prob: 1000 });
+        plan::add(Rule { kind, scope: plan::SCOPE_CHILD, nth: fail_nth, fd: -1, act: plan::ACT_FAIL, val: fail_errno as i64, prob: 1000 });
     }
     let old = std::env::var_os("PATH");
     if use_path {
@@ -177,8 +187,9 @@ fn shape_case(ctx: &mut Ctx, rng: &mut Rng, i: u64) {
         let _ = p.wait();
     }
     let shape = format!(
-        "name{} path={}({} entries, longest {} at {}) args{} cwd{} streams{} fail={:?}",
-        name_len, use_path, ents.len(), long_len, ["first", "middle", "last"][long_pos as usize], nargs, cwd_len, streams, fail_step.map(k::name)
+        "name{} path={}({} entries, longest {} at {}) args{} cwd{} streams{} fail={:?}{} executable={}",
+        name_len, use_path, ents.len(), long_len, ["first", "middle", "last"][long_pos as usize], nargs, cwd_len, streams, fail_step.map(k::name),
+        if fail_step == Some(k::EXECVE) { format!("({} {})", spawn_errno(fail_errno), if fail_nth == 0 { "every attempt" } else { "first attempt only" }) } else { String::new() }, use_executable
     );
     if child_steps == 0 {
         ctx.inconclusive("forked child left no trace in the log (not exercised)", J::s(&shape));
@@ -209,7 +220,10 @@ fn shape_case(ctx: &mut Ctx, rng: &mut Rng, i: u64) {
                 .set("child_events", J::arr_s(&evs.iter().filter(|e| e.child != 0).map(ilog::fmt_ev).take(30).collect::<Vec<_>>())),
         );
     }
-    ctx.distinct(&format!("{}|{}|{}|{}|{}|{}|{:?}|{}", name_len / 50, use_path, nent / 20, long_pos, cwd_len / 100, streams, fail_step, succeed));
+    ctx.distinct(&format!("{}|{}|{}|{}|{}|{}|{:?}|{}|{}|{}", name_len / 50, use_path, nent / 20, long_pos, cwd_len / 100, streams, fail_step, succeed, use_executable, if fail_step == Some(k::EXECVE) { fail_errno } else { 0 }));
+    if use_executable {
+        ctx.count("launches_naming_the_program_apart_from_argv0", 1);
+    }
     if i < 2 {
         ctx.sample(J::s(&shape));
     }
@@ -223,4 +237,8 @@ pub fn run(ctx: &mut Ctx) {
     }
     let n = ctx.n(4000, 100_000);
     ctx.family("shapes", n, shape_case);
+}
+
+fn spawn_errno(e: i32) -> String {
+    crate::spawn::errno_name(e)
 }
